@@ -25,7 +25,7 @@ DEADLINE = {"quick": 60, "thorough": 600}
 
 
 def REQUIRED(tier):
-    req = {"rotate:root": 20, "rotate:via-associative-rule": 5}
+    req = {"rotate:root": 20, "rotate:via-associative-rule": 5, "rotate:histories": 100, "rotate:rule-sequences": 20}
     for side in ("left", "right"):
         for g in ("no-grandparent", "under-L", "under-R"):
             for inner in ("inner", "no-inner"):
@@ -98,6 +98,32 @@ def run(rec, cfg):
         drive(rec, s, {"raw": fac["raw"]})
         rec.arm("shapes:random-large")
         rec.sample({"shape": W9.shape_str(s)[:120], "nodes": W9.count(s)})
+    # rotation HISTORIES: rotations interleaved with other structural edits through the public API
+    # (child swaps, moving subtrees between trees, wrapping, detaching) on the same node objects,
+    # so that anything a node remembered about its neighbours is stale when it is rotated next
+    from . import c14 as H
+
+    fac14 = H.factories()
+    for i in range(cfg.scale(2500, 30000)):
+        if cfg.out_of_time():
+            rec.truncated = True
+            break
+        kn = rng.choice(["raw", "expr"])
+        H.mutation_history(rec, rng, fac14[kn], kn, steps=rng.randint(6, 20))
+        rec.arm("rotate:histories")
+    # in-place sequences of the associative and commutative rules on one expression tree
+    from mathy_core.parser import ExpressionParser as _P
+    from ..monitors import rules as MR
+    from ..workloads import drive as D
+
+    acr = [(l, r) for l, r in MR.rule_instances() if l in ("AG", "CS")]
+    for t in ["(a + b) + c + d", "a * b * c * d", "(a + b) + (c + d) + e", "(a * b) * (c * d)", "((a + b) + c) + (d + (e + f))", "2x + 3y + 4z + 5"]:
+        for k in range(cfg.scale(6, 60)):
+            try:
+                D.inplace_chain(rec, _P().parse(t), acr, rng, steps=rng.randint(3, 10))
+            except Exception:
+                pass
+            rec.arm("rotate:rule-sequences")
     # rotations done by the associative rule
     from mathy_core.parser import ExpressionParser
     from mathy_core.rules import AssociativeSwapRule
